@@ -122,7 +122,7 @@ func (ex *Exec) callAbstract(fr *frame, fv Val, cc *ssa.CallCommon, args []Val, 
 			if reach != nil {
 				r = *reach
 			}
-			st.H["X|ctx.done"] = ex.name("ctxdone", ite(r, sto(done, target, "true"), done), arrSort(sInt, sBool))
+			ex.setH(st, "X|ctx.done", ex.name("ctxdone", ite(r, sto(done, target, "true"), done), arrSort(sInt, sBool)))
 		}
 		return Val{T: sig.Results()}
 	}
@@ -131,7 +131,7 @@ func (ex *Exec) callAbstract(fr *frame, fv Val, cc *ssa.CallCommon, args []Val, 
 	ex.registerKey(ck, sInt)
 	cur := ex.heapGet(st, ck, sInt)
 	ex.havocAll(st, "call through function value "+name)
-	st.H[ck] = ex.name("calls", ite(*reach, app("+", cur, "1"), cur), sInt)
+	ex.setH(st, ck, ex.name("calls", ite(*reach, app("+", cur, "1"), cur), sInt))
 	ex.used["abstract function value: "+name] = true
 	var vs []Val
 	for i := 0; i < sig.Results().Len(); i++ {
@@ -146,7 +146,7 @@ func (ex *Exec) callAbstract(fr *frame, fv Val, cc *ssa.CallCommon, args []Val, 
 			}
 			ex.registerKey(rk, srt)
 			prev := ex.heapGet(st, rk, srt)
-			st.H[rk] = ite(*reach, l, prev)
+			ex.setH(st, rk, ite(*reach, l, prev))
 		}
 	}
 	if sig.Results().Len() == 0 {
@@ -446,7 +446,7 @@ func (ex *Exec) callContractVars(c *Contract, params []*types.Var, sig *types.Si
 				rk := fmt.Sprintf("X|lastarg.%s.%s.%d", c.Name, p.Name(), j)
 				ex.registerKey(rk, l.Sort)
 				prev := ex.heapGet(st, rk, l.Sort)
-				st.H[rk] = ex.name("larg", ite(r0, args[i].L[j], prev), l.Sort)
+				ex.setH(st, rk, ex.name("larg", ite(r0, args[i].L[j], prev), l.Sort))
 			}
 		}
 	}
@@ -491,7 +491,7 @@ func (ex *Exec) callContractVars(c *Contract, params []*types.Var, sig *types.Si
 		nk := "X|ncalls." + c.Name
 		ex.registerKey(nk, sInt)
 		prevN := ex.heapGet(st, nk, sInt)
-		st.H[nk] = ex.name("ncalls", ite(r, app("+", prevN, "1"), prevN), sInt)
+		ex.setH(st, nk, ex.name("ncalls", ite(r, app("+", prevN, "1"), prevN), sInt))
 		for i, v := range vs {
 			ex.lastResTypes[fmt.Sprintf("%s.%d", c.Name, i)] = res.At(i).Type()
 			for j, l := range leaves(res.At(i).Type()) {
@@ -501,7 +501,7 @@ func (ex *Exec) callContractVars(c *Contract, params []*types.Var, sig *types.Si
 				rk := fmt.Sprintf("X|lastres.%s.%d.%d", c.Name, i, j)
 				ex.registerKey(rk, l.Sort)
 				prev := ex.heapGet(st, rk, l.Sort)
-				st.H[rk] = ex.name("lres", ite(r, v.L[j], prev), l.Sort)
+				ex.setH(st, rk, ex.name("lres", ite(r, v.L[j], prev), l.Sort))
 			}
 		}
 	}
@@ -605,7 +605,10 @@ func (ex *Exec) resolveModifies(c *Contract, item string, env map[string]Val, st
 	}
 	if strings.HasPrefix(item, "elemtype(") {
 		// every element of every backing array of this element type (type level)
-		inner := item[len("elemtype(") : len(item)-1]
+		// elemtype(T) or elemtype(T).field.path (only the leaves under that field)
+		closeIdx := strings.Index(item, ")")
+		inner := item[len("elemtype("):closeIdx]
+		fieldPath := strings.TrimPrefix(item[closeIdx+1:], ".")
 		e, err := parser.ParseExpr(inner)
 		if err != nil {
 			panic(unsupported("modifies: " + item))
@@ -616,7 +619,13 @@ func (ex *Exec) resolveModifies(c *Contract, item string, env map[string]Val, st
 		}
 		var out []modLoc
 		for _, l := range leaves(t) {
+			if fieldPath != "" && l.Name != fieldPath && !strings.HasPrefix(l.Name, fieldPath+".") {
+				continue
+			}
 			out = append(out, modLoc{key: "E|" + typeKey(t) + "|" + l.Name, sort: heapKeySort("E", l.Sort, "")})
+		}
+		if len(out) == 0 {
+			panic(unsupported("modifies: no such field in " + item))
 		}
 		return out
 	}
